@@ -78,6 +78,7 @@ const (
 	lkLwork // lwork
 	lkScalar
 	lkBool
+	lkRaw // any other argument, built by mk (e.g. Dlacn2's isave *[3]int)
 )
 
 type larg struct {
@@ -86,8 +87,12 @@ type larg struct {
 	msg  string   // message of the clause this argument can violate
 	alt  []string // further acceptable messages (documented ambiguity, see NOTES.md)
 
-	ftype reflect.Type // flag type
-	legal []byte       // legal flag values
+	ftype   reflect.Type // flag type
+	legal   []byte       // legal flag values
+	illegal []byte       // illegal flag values tried (default 0 and '?')
+	noFault bool         // flag: every value is accepted by the documentation
+	enum    bool         // lkBool: both values are enumerated in the valid grid
+	mk      func(e *lenv) reflect.Value
 
 	rows, cols efn    // matrix extents
 	ld         string // name of the leading-dimension argument of a matrix / the matrix of an ld
@@ -231,6 +236,17 @@ func lwork(min efn) []larg {
 func lscalar(name string, x float64) []larg { return []larg{{kind: lkScalar, name: name, fval: x}} }
 func boolv(name string, b bool) []larg      { return []larg{{kind: lkBool, name: name, bval: b}} }
 
+// boolEnum is a bool argument whose two values are both enumerated.
+func boolEnum(name string) []larg { return []larg{{kind: lkBool, name: name, enum: true}} }
+
+// raw is an argument of any other type with a fixed valid value.
+func raw(name string, mk func(e *lenv) reflect.Value) []larg {
+	return []larg{{kind: lkRaw, name: name, mk: mk}}
+}
+
+// isTrue reports whether the enumerated bool argument name is true.
+func isTrue(name string) func(e *lenv) bool { return func(e *lenv) bool { return e.g(name) != 0 } }
+
 func usedIf(a []larg, f func(e *lenv) bool) []larg { a[0].used = f; return a }
 
 // ---- execution ----------------------------------------------------------------
@@ -271,6 +287,8 @@ func newLMethod(impl reflect.Value, r *lroutine) *lmethod {
 			want = reflect.Float64
 		case lkBool:
 			want = reflect.Bool
+		case lkRaw:
+			continue
 		}
 		if pt.Kind() != want {
 			panic(fmt.Sprintf("harness: %s argument %d (%s) has type %v, row says %v", r.name, i, a.name, pt, want))
@@ -402,6 +420,8 @@ func (lm *lmethod) describe(in []reflect.Value) string {
 			} else {
 				fmt.Fprintf(&sb, "%s=%d", a.name, u)
 			}
+		case reflect.Ptr:
+			fmt.Fprintf(&sb, "%s=&%v", a.name, x.Elem().Interface())
 		default:
 			fmt.Fprintf(&sb, "%s=%v", a.name, x.Interface())
 		}
@@ -485,8 +505,8 @@ func (lm *lmethod) runBase(t failer, e *lenv, ldDelta []int, mode int, pairs boo
 		cl := "valid-call-panics"
 		if o.class == pcFault {
 			cl = "memory-fault"
-		} else if r.name == "Dlarfb" && e.g("k") == 0 && o.class == pcRuntime {
-			cl = "dlarfb-k0-panics"
+		} else if k := lapackValidFinding(r.name, e, o); k != "" {
+			cl = k
 		}
 		t.FailClass(cl, "%s: all arguments satisfy the documented contract (slices exactly minimal, cap == len) but the call %s", lm.describe(in), o)
 	}
@@ -529,6 +549,8 @@ func (lm *lmethod) runBase(t failer, e *lenv, ldDelta []int, mode int, pairs boo
 			cl := "valid-call-panics"
 			if o.class == pcFault {
 				cl = "memory-fault"
+			} else if k := lapackValidFinding(r.name, e, o); k != "" {
+				cl = k
 			}
 			t.FailClass(cl, "%s with the slices on guard pages (placement mask %b over the slice arguments in order, 0 = ends at a PROT_NONE page, 1 = starts right after one): %s", lm.describe(gin), mask, o)
 		}
@@ -545,8 +567,15 @@ func (lm *lmethod) runBase(t failer, e *lenv, ldDelta []int, mode int, pairs boo
 		}
 		switch a.kind {
 		case lkFlag:
-			for _, b := range []byte{0, '?'} {
-				add(lfault{pos: i, val: flagValue(a.ftype, b), n: -1, msg: a.msg, alt: a.alt, label: fmt.Sprintf("%s=%d", a.name, b), kind: "flag", first: b == 0})
+			ill := a.illegal
+			if ill == nil {
+				ill = []byte{0, '?'}
+			}
+			if a.noFault {
+				ill = nil
+			}
+			for k, b := range ill {
+				add(lfault{pos: i, val: flagValue(a.ftype, b), n: -1, msg: a.msg, alt: a.alt, label: fmt.Sprintf("%s=%d", a.name, b), kind: "flag", first: k == 0})
 			}
 		case lkDim:
 			if !a.noNeg {
@@ -709,7 +738,13 @@ func (lm *lmethod) buildPlaced(e *lenv, place func(k int) bool) (in []reflect.Va
 		case lkScalar:
 			in[i] = reflect.ValueOf(a.fval)
 		case lkBool:
-			in[i] = reflect.ValueOf(a.bval)
+			if a.enum {
+				in[i] = reflect.ValueOf(e.g(a.name) != 0)
+			} else {
+				in[i] = reflect.ValueOf(a.bval)
+			}
+		case lkRaw:
+			in[i] = a.mk(e)
 		case lkMat, lkVec, lkWork, lkIVec, lkBVec:
 			n := lm.needOf(e, i)
 			lens[i] = n
@@ -757,6 +792,22 @@ func (lm *lmethod) buildPlaced(e *lenv, place func(k int) bool) (in []reflect.Va
 	return in, regs, lens
 }
 
+// lapackValidFinding names the triaged gonum defect a panicking VALID call is an
+// instance of (NOTES.md), or returns "".
+func lapackValidFinding(routine string, e *lenv, o outcome) string {
+	switch {
+	case routine == "Dlarfb" && e.g("k") == 0 && o.class == pcRuntime:
+		return "dlarfb-k0-panics"
+	case routine == "Dlahr2" && e.g("nb") == 0 && e.g("n") > 1 && o.class == pcRuntime:
+		return "dlahr2-nb0-panics"
+	case routine == "Dlatdf" && e.g("n") == 1 && o.class == pcPackage && o.msg == "lapack: k2 out of range":
+		return "dlatdf-n1-panics"
+	case routine == "Dlapll" && e.g("n") == 2 && e.g("incY") > 1 && o.class == pcRuntime:
+		return "dlapll-n2-strided-slice-panic"
+	}
+	return ""
+}
+
 // lapackFinding names the triaged gonum defect (see NOTES.md, "Findings") a
 // failing single fault belongs to, or returns "". Every predicate is
 // restricted to the routine, the argument and the observed behaviour of the
@@ -776,8 +827,14 @@ func lapackFinding(routine, arg, kind string, o outcome) string {
 		return "dgebd2-missing-shorta-check"
 	case (routine == "Dgeev" || routine == "Dgehrd") && arg == "work" && o.class == pcRuntime:
 		return "lapack-query-empty-work-index-panic"
+	case routine == "Dlaexc" && arg == "ldq" && o.class == pcNone:
+		return "dlaexc-ldq-check-tests-ldt"
+	case (routine == "Dlasq3" || routine == "Dlasq4" || routine == "Dlasq5" || routine == "Dlasq6") && arg == "z" && kind == "short" && (o.class == pcNone || o.class == pcRuntime):
+		return "dlasq-short-z-off-by-one"
 	case o.class != pcPackage:
 		return ""
+	case routine == "Dgetc2" && arg == "jpiv" && o.msg == "lapack: bad length of jpvt":
+		return "dgetc2-jpiv-wrong-message"
 	case (routine == "Dggsvd3" || routine == "Dggsvp3") && arg == "iwork" && o.msg == "lapack: insufficient length of work":
 		return "dggsv-iwork-wrong-message"
 	case routine == "Dgesv" && arg == "a" && o.msg == "lapack: insufficient length of ab",
